@@ -148,6 +148,23 @@ def run(ctx: Ctx):
                         ob = observe(comp)
                         ctx.evaluations += 1
                         judge(ctx, v, ob, {"x": x, "cls": cls.__name__, "route": route, "provider": prov})
+                    # manual Alarms API with reads between the calls: times must reflect every alarm added so far
+                    if len(x["alarms"]) == 2 and x["c"]["start"]["kind"] != "none":
+                        comp, objs = build(cls, x["c"], x["alarms"])
+                        al = Alarms()
+                        al.set_start(comp.start)
+                        al.set_end(comp.end)
+                        try:
+                            al.add_alarm(objs[0])
+                            al.times                     # a read between the two additions
+                            al.add_alarm(objs[1])
+                            got = al.times
+                            per = [[alpha(t.trigger) for t in got if t.alarm is o] for o in objs]
+                            ob = ["ok", per]
+                        except Exception as e:   # noqa: BLE001
+                            ob = ["err", type(e).__name__]
+                        ctx.evaluations += 1
+                        judge(ctx, v, ob, {"x": x, "cls": cls.__name__, "route": "manual-interleaved", "provider": prov})
     finally:
         tzp.use_default()
 
